@@ -6,7 +6,10 @@ import (
 	"bytes"
 	"errors"
 	"io"
+	"net"
+	"os"
 	"sync"
+	"syscall"
 )
 
 // SegReader hands out at most Sched[i] bytes on the i-th Read (cycling), min 1.
@@ -36,10 +39,68 @@ func (s *SegReader) Read(p []byte) (int, error) {
 	return s.R.Read(p[:n])
 }
 
+// DataEOFReader returns the last bytes of B together with io.EOF (as io.Reader permits and as
+// testing/iotest.DataErrReader, HTTP bodies with a Content-Length, etc. do), handing out at
+// most Sched[i] bytes per call.
+type DataEOFReader struct {
+	B     []byte
+	Sched []int
+	i     int
+}
+
+func (d *DataEOFReader) Read(p []byte) (int, error) {
+	if len(d.B) == 0 {
+		return 0, io.EOF
+	}
+	n := len(p)
+	if len(d.Sched) > 0 {
+		if k := d.Sched[d.i%len(d.Sched)]; k >= 1 && k < n {
+			n = k
+		}
+		d.i++
+	}
+	if n > len(d.B) {
+		n = len(d.B)
+	}
+	copy(p, d.B[:n])
+	d.B = d.B[n:]
+	if len(d.B) == 0 {
+		return n, io.EOF
+	}
+	return n, nil
+}
+
 // ErrSentinel is what fault-injecting transports return.
 type Sentinel struct{ Msg string }
 
 func (s *Sentinel) Error() string { return s.Msg }
+
+// WrapSentinel is a transport error that is itself a wrapper (like *net.OpError or an error
+// built with fmt.Errorf("%w")): it has an Unwrap method. The root cause the library must report
+// is still this error, not what it wraps.
+type WrapSentinel struct {
+	Msg   string
+	Inner error
+}
+
+func (w *WrapSentinel) Error() string { return w.Msg }
+func (w *WrapSentinel) Unwrap() error { return w.Inner }
+
+// NewSentinel builds one of the transport error kinds: 0 plain, 1 wrapper around an errno-like
+// error, 2 wrapper whose Unwrap returns nil, 3 *net.OpError, 4 *os.PathError.
+func NewSentinel(kind int, msg string) error {
+	switch kind % 5 {
+	case 1:
+		return &WrapSentinel{Msg: msg, Inner: errors.New("inner cause")}
+	case 2:
+		return &WrapSentinel{Msg: msg}
+	case 3:
+		return &net.OpError{Op: "read", Net: "tcp", Err: syscall.ECONNRESET}
+	case 4:
+		return &os.PathError{Op: "write", Path: "/dev/full", Err: syscall.ENOSPC}
+	}
+	return &Sentinel{Msg: msg}
+}
 
 // ErrReader fails the FailAt-th Read call (0-based) with Err, and every call after it.
 // With AfterBytes >= 0 it instead fails once that many bytes were delivered.
